@@ -3,6 +3,7 @@ package props
 import (
 	"encoding/json"
 	"fmt"
+	"regexp"
 	"strings"
 	"time"
 
@@ -341,6 +342,8 @@ var c20Injectors = []string{
 	"func Inject() (I, func(), error) { panic(wire.Build(NewHolder, wire.FieldsOf(new(Holder), \"C\"), wire.Bind(new(I), new(C)))) }",
 }
 
+var reBuildCall = regexp.MustCompile(`\bBuild\)?\(`)
+
 // C20Case is one form program.
 type C20Case struct {
 	Cat    string `json:"cat"`
@@ -673,6 +676,22 @@ func judgeC20(c *Ctx, cs *C20Case, o c20Obs, count bool) *Fail {
 	if o.Check.Exit != 0 && o.Check.Alone {
 		if !HasPosition(o.Check.Stderr, o.Root) {
 			return Failf("C20 failure without a positioned diagnostic", "wire check on form %q reported:\n%s", cs.Form, tailStr(o.Check.Stderr, 1500))
+		}
+	}
+	// status 0 => every injector template was implemented: a call of the
+	// marker function Build in the output means a template was copied as an
+	// ordinary declaration (and would return its stub value at run time)
+	if cs.Cat == "injector" && !o.Gen.Failed() && o.GenSrc != "" && reBuildCall.MatchString(o.GenSrc) && !strings.Contains(cs.Form, "not an injector") && !strings.Contains(cs.Form, "var _ = wire.Build") && !strings.Contains(cs.Form, "return wire.Build") && !strings.Contains(cs.Form, "_ = wire.Build") {
+		return Failf("C20 success reported but an injector template was copied instead of implemented", "form %q (%s, %s import)\n--- wire_gen.go\n%s", cs.Form, cs.Ctx, cs.Import, o.GenSrc)
+	}
+	// ... and a template that calls Build in statement position (parenthesised
+	// or not) must have got an implementation at all
+	if cs.Cat == "injector" && !o.Gen.Failed() && o.Gen.Status == "done" {
+		f := cs.Form
+		isTemplate := (strings.Contains(f, "{ wire.Build(") || strings.Contains(f, "{ (wire.Build") || strings.Contains(f, "panic(wire.Build(") || strings.Contains(f, "panic((wire.Build(") || strings.Contains(f, "; wire.Build(")) &&
+			!strings.Contains(f, "var _ = wire.Build")
+		if isTemplate && !strings.Contains(o.GenSrc, "Inject(") && !strings.Contains(o.GenSrc, "Inject[") {
+			return Failf("C20 success reported but an injector template got no implementation", "form %q (%s import)\n--- wire_gen.go\n%s", cs.Form, cs.Import, o.GenSrc)
 		}
 	}
 	// status 0 => the generated package compiles (C01 applies); methods and
